@@ -106,7 +106,10 @@ impl<T> From<DiplomatOption<T>> for Option<T> {
 }
 
 impl<T, E> From<DiplomatResult<T, E>> for Result<T, E> {
-    fn from(mut result: DiplomatResult<T, E>) -> Result<T, E> {
+    fn from(result: DiplomatResult<T, E>) -> Result<T, E> {
+        // The payload is moved out below; `DiplomatResult` has a `Drop` impl that would
+        // otherwise drop the same payload a second time when `result` goes out of scope.
+        let mut result = ManuallyDrop::new(result);
         unsafe {
             if result.is_ok {
                 Ok(ManuallyDrop::take(&mut result.value.ok))
